@@ -2,7 +2,7 @@
 import itertools
 import random
 
-from .prog import (IllTyped, align, binary, cat, depth, einsum, getitem, getslice, independent, lambda_, leaf, num,
+from .prog import (IllTyped, align, binary, cat, depth, einsum, getitem, getitem_at, getslice, independent, lambda_, leaf, num,
                    outreduce, reduce_, reshape, show, slice_, stack, subs, type_of, unary, var)
 
 SIZES = {"i": 2, "j": 3, "k": 2, "l": 1, "m": 4}
@@ -134,6 +134,10 @@ def wrappers(theme, e, rng=None, full=True):
         yield getitem(e, num(shape[0] - 1, shape[0]))
         yield getitem(e, var("gi", ("bint", shape[0])))
         yield getitem(e, _leaf_idx("ig%d" % shape[0], ("k",), shape[0]))
+        if len(shape) >= 2:        # index a NON-leading event dim: x[:, k]
+            yield getitem_at(e, num(shape[1] - 1, shape[1]), 1)
+            yield getitem_at(e, var("gj", ("bint", shape[1])), 1)
+            yield getitem_at(e, _leaf_idx("ih%d" % shape[1], ("k",), shape[1]), 1)
         if len(bnames) >= 2:      # index tensor over the SAME inputs in a different order
             yield getitem(e, leaf("ir%d_%s" % (shape[0], "".join(k for k, _ in bnames)), tuple(reversed(bnames)), (), ("int", shape[0])))
         for index in (0, -1, slice(None), slice(1, None), slice(None, None, 2), None, Ellipsis,
